@@ -31,6 +31,11 @@ RULE = ("tables: every PSK order 2..4096 (plus BPSK/QPSK) and every square "
         "equal-shape non-negative integer arrays with axis None or valid. "
         "non-trivial = constellation with M >= 16, or a case containing an "
         "integer >= 2^16; distinct = SHA-1 of the case description")
+RULE += (" Added after the white-box review: "
+         "every index array in C / Fortran / transposed / strided / "
+         "read-only layout, negative axes, 64-bit values up to the "
+         "dtype limit for bit-error counting ")
+
 LEVEL_TEXT = ("All 20 (class, order) symbol tables the library can build in "
               "the quantified range are enumerated in every run and examined "
               "with a brute-force O(M^2) minimum-distance neighbour oracle; "
